@@ -11,6 +11,24 @@ CHECKS = {
         note="Trusted: Coq kernel + vm_compute, translate/gen_regex.py and CPython's re._parser, the extracted matcher used for the cross-check, sampled call-site conformance. The code between the wire and each gate (line splitting, stripping) is modelled by hand (Receiver.v/Parser.v) and compared by execution, not verified. Request-line surrounding whitespace is an open known finding (kf_c10_reqline_ws).",
         technique="reflective regular-language equivalence proof in Coq (Brzozowski derivatives, verified bisimulation check) over generated terms + differential call-site conformance",
     ),
+    "C17": dict(
+        text="Model/Buffers.v transliterates OverflowableBuffer / FileBasedBuffer / ReadOnlyFileBasedBuffer (files as content/pos/closed with real seek/tell/read/write semantics); STRBUF_LIMIT and the overflow threshold are universally quantified. Coq proves, by induction over operation histories of any length: the representation invariant, refinement of the FIFO byte queue of Spec/Fifo.v (peek returns a prefix at least as long as requested or everything, consume removes exactly that many), exactly-once / in-order / unmodified accounting with len = appended - consumed, the skip error branch, representation bounds, close, the channel's peek-then-skip flush pattern, and the read-only buffer's clamp and file positioning. Tie: differential execution of the extracted model against the real classes (real BytesIO / TemporaryFile) after every operation, plus a direct search of the implementation against the extracted spec and an independent Python queue.",
+        design_ref="DESIGN.md section 7 C17, Appendix C (Buffers refine a FIFO)",
+        note="Trusted: Coq kernel (vm_compute only in examples), ExtrOcamlBasic extraction + OCaml driver, the harness and its sampled coverage (exhaustive for histories of 3-5 operations over small alphabets), CPython BytesIO/TemporaryFile as represented by the file model. Domain: skip(n >= 0); read-only get(n >= -1) on a seekable file with size None or >= 0; the caller does not use the getfile() file while the buffer is in use; the COPY_BYTES loop is modelled as a whole copy (the real loop is exercised with COPY_BYTES in {1, 5, real}); prune() excluded (outside the property).",
+        technique="Coq refinement proof (invariant + abstraction function, induction over histories) with extracted-model differential correspondence and exhaustive short-history enumeration",
+    ),
+    "C20": dict(
+        text="The mutual-exclusion chain, the proxy cross-checks, the socket checks, _params, the CLI name mangling and the documented option lists are regenerated from adjustments.py / runner.py / server.py / docs/arguments.rst on every run (translate/gen_adjust.py) and consumed through interface lemmas decided by vm_compute over their finite domains (all 32 subsets of the exclusive options, all 64 rows of the proxy table) lifted with forallb_forall; universal theorems over all strings, lists and keyword dictionaries (casts, asbool spellings, aslist = split, repeated --listen accumulation, --x=v / --x v / --x / --no-x equal to the keyword form, getopt totality) are proved by induction over an executable model of Adjustments.__init__, getopt and parse_args. Tie: the translator and K-adj differential execution of the extracted model against the real Adjustments / parse_args / casts, plus a specification-versus-implementation search.",
+        design_ref="DESIGN.md section 7 C20, section 4.1",
+        note="All theorems closed under the global context. Multi-option command lines are covered by differential execution only. getaddrinfo, app resolution and socket objects are stubbed. Documentation is compared on option names and flag-vs-value form (plus six defaults). int() of non-ASCII decimal digits and lower() outside latin-1 are not modelled (the harness checks on every run that str.lower() maps no non-latin-1 character onto a letter used by truthy / KNOWN_PROXY_HEADERS). The defect 'ipv4=False with ipv6=False silently binds both families' was found by this package and repaired in /repo (fix 535fe10).",
+        technique="Coq proofs over terms regenerated from the source (finite truth tables by vm_compute + forallb_forall; universal lemmas by induction) + extracted-model differential correspondence",
+    ),
+    "C07": dict(
+        text="For every sequence of received() calls that ends in an accepted request and every server configuration, the environ built by the transliterated get_environment over the parser model is proved equal, key by key, to an independent PEP 3333 / RFC 3875 specification computed from the field lines (CGI naming, '_' names dropped, OWS-stripped values joined by ', ' in arrival order, Transfer-Encoding removed on 1.1, chunked -> str(decoded length)), the request line (percent-decoded path incl. invalid escapes, leading-slash collapse, url_prefix split, raw query) and the body; no header name can produce a server-defined key (finite key-disjointness check lifted to all names); all strings are latin-1; CONTENT_LENGTH equals the number of bytes behind wsgi.input. Tie: differential execution of the extracted model AND of the extracted specification against the real HTTPRequestParser + WSGITask.get_environment (and HTTPChannel) on generated requests x configurations.",
+        design_ref="DESIGN.md section 7 C07",
+        note="Trusted: Coq kernel/vm_compute; the hand-written parser/receiver/urlsplit models (compared by execution: K-parse/K-env); the body buffer is modelled as the appended bytes (tempfile path exercised by K-env; C17 proves the buffer a FIFO separately); the framing verdict and decoded body are inputs of the specification (C01's subject). Specification decisions: visible-ASCII targets, SERVER_PROTOCOL only for 1.0/1.1, obs-fold joins lines keeping the white space, bracketed IPv6 authorities unmodelled (skipped and counted). ident=None yields SERVER_SOFTWARE=None (configuration outside the quantifier).",
+        technique="inductive invariants over the header loop and over all received() runs, reflective regex inclusion for the method token, finite key-disjointness check, functional equality with an independent specification in Coq + differential model/spec-versus-implementation execution",
+    ),
 }
 
 NOT_YET = {}
